@@ -98,18 +98,14 @@ impl CargoTomlParser {
             return;
         };
 
-        // Platform-specific dependencies live in [target.<cfg>.dependencies] (and
-        // .dev-dependencies / .build-dependencies): the last component names the section
-        let section = match name.strip_prefix("target.") {
-            // [target.dependencies] has no <cfg> component: it is not a dependency table
-            Some(rest) => match rest.rsplit_once('.') {
-                Some((_, last)) => last,
-                None => return,
-            },
-            None => name.as_str(),
-        };
-
-        if !Self::DEPENDENCY_TABLES.contains(&section) {
+        if !Self::is_dependency_table(&name) {
+            // A dependency written as its own table, [dependencies.serde] with version = "1.0"
+            // inside: the table's pairs are those of the inline form serde = { version = "1.0" }
+            if let Some((parent, dependency)) = name.rsplit_once('.')
+                && Self::is_dependency_table(parent)
+            {
+                self.extract_package_from_subtable(dependency, table_node, content, results);
+            }
             return;
         }
 
@@ -120,6 +116,54 @@ impl CargoTomlParser {
                 self.extract_package_from_pair(child, content, results);
             }
         }
+    }
+
+    /// Whether a table name is one of the dependency tables, possibly platform-specific
+    fn is_dependency_table(name: &str) -> bool {
+        // Platform-specific dependencies live in [target.<cfg>.dependencies] (and
+        // .dev-dependencies / .build-dependencies): the last component names the section
+        let section = match name.strip_prefix("target.") {
+            // [target.dependencies] has no <cfg> component: it is not a dependency table
+            Some(rest) => match rest.rsplit_once('.') {
+                Some((_, last)) => last,
+                None => return false,
+            },
+            None => name,
+        };
+
+        Self::DEPENDENCY_TABLES.contains(&section)
+    }
+
+    /// Extract package info from a table that describes one dependency
+    fn extract_package_from_subtable(
+        &self,
+        dependency: &str,
+        table_node: tree_sitter::Node,
+        content: &str,
+        results: &mut Vec<PackageInfo>,
+    ) {
+        let Some((version, start_offset, end_offset, line, column)) =
+            self.extract_version_from_inline_table(table_node, content)
+        else {
+            return;
+        };
+
+        // A renamed dependency is known to the registry under its `package` name
+        let name = self
+            .inline_table_package(table_node, content)
+            .unwrap_or_else(|| dependency.to_string());
+
+        results.push(PackageInfo {
+            name,
+            version,
+            commit_hash: None,
+            registry_type: RegistryType::CratesIo,
+            start_offset,
+            end_offset,
+            line,
+            column,
+            extra_info: None,
+        });
     }
 
     /// Extract package info from a key-value pair
